@@ -240,15 +240,28 @@ def run(pid, tier, seed, update_lock=False, verbose=False, only=None):
     if refuted:
         from bsvc import replay
         violations = replay.handle_refuted(pid, pm, refuted, seed, lock)
-    wall = time.time() - t0
     # ------------------------------------------------------------------ evidence
     level = getattr(pm, 'LEVEL', 'proof')
     bounded = []
-    if hasattr(pm, 'bounded_checks'):
-        try:
-            bounded = pm.bounded_checks(tier, seed)
-        except Exception as e:
-            errors.append('bounded stand-in crashed: %s' % e)
+    if tier == 'thorough' and getattr(pm, 'NATIVE_SWEEPS', None) and repo_root() == '/repo' and not only:
+        # bounded stand-in (labelled bounded, never counted as proved): the native runtime-contract sweep on a scratch build
+        from bsvc import replay
+        for name, sw in pm.NATIVE_SWEEPS.items():
+            for sd in (seed, seed + 1, seed + 2):
+                try:
+                    r = replay.run_native(sw(sd, None), timeout=1500)
+                except Exception as e:
+                    r = dict(ok=False, error=str(e))
+                entry = dict(kind='native runtime-contract sweep (bounded)', sweep=name, seed=sd, result=r)
+                bounded.append(entry)
+                if r.get('ok') and r['result'].get('reproduced'):
+                    fn = os.path.join(ROOT, 'out', 'replay', '%s-native-sweep-%d.json' % (pid, sd))
+                    os.makedirs(os.path.dirname(fn), exist_ok=True)
+                    with open(fn, 'w') as fh:
+                        json.dump(dict(property=pid, obligation='native-sweep', native=r), fh, indent=1, default=str)
+                    violations.append('VIOLATION property=%s replay=%s obligation=native-runtime-contract-sweep' % (pid, fn))
+        replay.cleanup_scratch()
+    wall = time.time() - t0
     trusted = list(getattr(pm, 'TRUSTED', []))
     trusted += ['bsvc VC generator and encoding (DESIGN 3.3)', 'SMT back ends z3 5.1.0 (in-process), z3 4.8.12, cvc5 1.0.3']
     trusted += ['axiom schema %s: %s' % (a, axioms.DESCRIPTIONS.get(a, '')) for a in sorted(axioms_used)]
